@@ -331,6 +331,13 @@ def probe_inputs(ctx, rng):
     check("UniverseLaws", b_laws, lambda: [("edge_whitelist", None, MAP_MUTS)],
           lambda w: {repr(k): sorted(map(repr, v.items())) for k, v in w.edge_whitelist.items()})
 
+    def b_laws_empty():
+        wl = {}
+        return UniverseLaws(edge_whitelist=wl), [("edge_whitelist", wl)]
+
+    check("UniverseLaws", b_laws_empty, lambda: [("edge_whitelist", None, ["setitem", "update"])],
+          lambda w: {repr(k): sorted(map(repr, v.items())) for k, v in w.edge_whitelist.items()})
+
     # load_adj_dict
     def b_adjdict():
         vs, us, ls = fresh()
